@@ -39,9 +39,21 @@ def translate():
     shape = RExprTr(sub, w).num(src["gamma_shape"].value)
     scale = RExprTr(sub, w).num(src["gamma_scale"].value)
     need(_ns(src["s"].value) == "1.0/np.random.gamma(shape=gamma_shape,scale=gamma_scale)", src["s"], "scale draw", w)
-    loop = next(s for s in body if isinstance(s, ast.While))
-    need(_ns(loop.test) == "True" and len(loop.body) == 3, loop, "redraw loop", w)
-    prop = loop.body[0]
+    def proposal_shape(stmts, where_):
+        """Two shapes: (a) 'while True: proposal=...; proposal=apply_bc(...); if check_bounds(...): return proposal' (redraw until
+        inside), (b) 'proposal=...; return apply_bc(proposal, ...)' (one draw; run() rejects out-of-cube proposals)."""
+        loops = [x for x in stmts if isinstance(x, ast.While)]
+        if loops:
+            lp = loops[0]
+            need(len(loops) == 1 and _ns(lp.test) == "True" and len(lp.body) == 3, lp, "redraw loop", where_)
+            need(_ns(lp.body[1]) == "proposal=apply_boundary_conditions(proposal,self.periodic,self.reflective)", lp.body[1], "boundary map", where_)
+            need(_ns(lp.body[2]).replace("\n", "") == "ifcheck_bounds(proposal,self.periodic,self.reflective):returnproposal", lp.body[2], "bounds test", where_)
+            return lp.body[0], "redraw"
+        asg = [x for x in stmts if isinstance(x, ast.Assign) and _ns(x.targets[0]) == "proposal"]
+        need(len(asg) == 1 and isinstance(stmts[-1], ast.Return) and stmts[-2] is asg[0]
+             and _ns(stmts[-1].value) == "apply_boundary_conditions(proposal,self.periodic,self.reflective)", stmts[-1], "single proposal + boundary map", where_)
+        return asg[0], "single"
+    prop, tp_shape = proposal_shape(body, w)
     need(isinstance(prop, ast.Assign) and _ns(prop.targets[0]) == "proposal", prop, "proposal", w)
     e = prop.value
     # mu + A*diff + N*chol_cov @ randn
@@ -52,8 +64,6 @@ def translate():
     need(isinstance(t_noise, ast.BinOp) and isinstance(t_noise.op, ast.MatMult) and _ns(t_noise.right) == "np.random.randn(self.n_dim)"
          and isinstance(t_noise.left, ast.BinOp) and _ns(t_noise.left.right) == "chol_cov", t_noise, "noise term", w)
     noise = RExprTr({"sigma": "sigma", "s": "s"}, w).num(t_noise.left.left)
-    need(_ns(loop.body[1]) == "proposal=apply_boundary_conditions(proposal,self.periodic,self.reflective)", loop.body[1], "boundary map", w)
-    need(_ns(loop.body[2]).replace("\n", "") == "ifcheck_bounds(proposal,self.periodic,self.reflective):returnproposal", loop.body[2], "bounds test", w)
     # ---- TPCNRunner._compute_acceptance_factor
     w = "mcmc.py:TPCNRunner._compute_acceptance_factor"
     fn = get_function(mc, "TPCNRunner._compute_acceptance_factor")
@@ -71,10 +81,9 @@ def translate():
     # ---- RWM
     w = "mcmc.py:RWMRunner"
     rp = get_function(mc, "RWMRunner._propose")
-    rloop = next(s for s in strip_doc(rp.body) if isinstance(s, ast.While))
-    need(_ns(rloop.body[0]) == "proposal=self.u[k]+sigma*chol_cov@np.random.randn(self.n_dim)", rloop.body[0], "RWM proposal", w)
-    need(_ns(rloop.body[1]) == "proposal=apply_boundary_conditions(proposal,self.periodic,self.reflective)"
-         and _ns(rloop.body[2]).replace("\n", "") == "ifcheck_bounds(proposal,self.periodic,self.reflective):returnproposal", rloop, "RWM boundary handling", w)
+    rprop, rw_shape = proposal_shape(strip_doc(rp.body), w)
+    need(_ns(rprop) == "proposal=self.u[k]+sigma*chol_cov@np.random.randn(self.n_dim)", rprop, "RWM proposal", w)
+    need(tp_shape == rw_shape, rp, f"the two kernels treat out-of-cube proposals differently ({tp_shape} / {rw_shape})", w)
     rf = get_function(mc, "RWMRunner._compute_acceptance_factor")
     need(_ns(strip_doc(rf.body)[-1]) == "returnnp.zeros(self.n_walkers)", rf, "RWM factor", w)
     # ---- accept block
@@ -83,6 +92,21 @@ def translate():
     t = _ns(run_fn)
     need("alpha=np.minimum(1.0,alpha)" in t and "alpha=np.nan_to_num(alpha,nan=0.0)" in t, run_fn, "alpha clipping", w)
     need("u_rand=np.random.rand(self.n_walkers)" in t and "mask_accept=u_rand<alpha" in t, run_fn, "Metropolis test", w)
+    # out-of-cube proposals: either never produced (redraw shape) or rejected here
+    wl = next(x for x in strip_doc(run_fn.body) if isinstance(x, ast.While))
+    st = [_ns(x).replace("\n", "") for x in wl.body]
+
+    def pos(frag):
+        hits = [i for i, x in enumerate(st) if x.startswith(frag)]
+        return hits[0] if len(hits) == 1 else None
+    i_prop, i_x, i_nan, i_rand = pos("forkinrange(self.n_walkers):u_prime[k]=self._propose(k)"), pos("x_prime="), pos("alpha=np.nan_to_num("), pos("u_rand=")
+    need(None not in (i_prop, i_x, i_nan, i_rand) and i_prop < i_x < i_nan < i_rand, wl, "order of propose / transform / alpha / draw", w)
+    i_in, i_ph, i_zero = (pos("inside=np.array([check_bounds(u_p,self.periodic,self.reflective)foru_pinu_prime])"),
+                          pos("u_prime[~inside]=self.u[~inside]"), pos("alpha[~inside]=0.0"))
+    rejects = None not in (i_in, i_ph, i_zero) and i_prop < i_in < i_ph < i_x and i_nan < i_zero < i_rand
+    need(rejects or (i_in is None and i_ph is None and i_zero is None), wl, "partial out-of-cube rejection", w)
+    need(not (tp_shape == "single" and not rejects), wl, "single-draw proposals but out-of-cube proposals are not rejected in run()", w)
+    cube_rule_rejects = (tp_shape == "single" and rejects)
     # the inverse and the Cholesky factor the kernels read are those of one and the same scale matrix
     ini = get_function(REPO / "tempest" / "modes.py", "ModeStatistics.__init__")
     derived = {_ns(s.targets[0]): _ns(s.value) for s in ast.walk(ini) if isinstance(s, ast.Assign)
@@ -107,7 +131,7 @@ Definition scale_is_inverse_of_gamma_draw : bool := true.
 Definition delta_uses_inverse_scale_of_assigned_mode : bool := true.
 Definition accept_mask_is_uniform_strictly_below_alpha : bool := true.
 Definition alpha_is_min_one_exp_nan_to_zero : bool := true.
-Definition out_of_cube_proposals_are_redrawn : bool := true.
+Definition out_of_cube_proposals_are_rejected : bool := {str(bool(cube_rule_rejects)).lower()}.
 Definition inverse_and_cholesky_are_of_the_mode_scale_matrix : bool := true.
 """
     write_if_changed(COQ / "Gen" / "Kernel.v", text)
@@ -334,16 +358,17 @@ def stationarity(run, tier):
     z = z_of(u1[:, 0], m_half, sd_half)
     if abs(z) > 6:
         run.fail("reflective-target-not-invariant", f"rwm with a reflective coordinate: mean z={z:.1f}", kernel="rwm", seed=303)
-    # (d) HARD boundary (listed finding): the same half-Gaussian with no boundary option: redraw-until-inside
+    # (d) HARD boundary: the same half-Gaussian with no boundary option (out-of-cube proposals must be rejected, not redrawn)
     for kind in ("rwm", "tpcn"):
         u0, u1 = ensemble(kind, half, n_walk, 404, n_steps=8)
         run.case(key=("stationarity-hard", kind), nontrivial=True)
         z = z_of(u1[:, 0], m_half, sd_half)
         run.extra[f"hard_boundary_z_{kind}"] = round(z, 2)
         if abs(z) > 6:
-            run.fail("hard-boundary-redraw-biases-kernel",
-                     f"{kind}: exact draws from a half-Gaussian abutting u=0 drift after mutation (mean z={z:.1f}): out-of-cube proposals are "
-                     f"redrawn until inside, which tilts the invariant law by P(step lands inside)", kernel=kind, n_walkers=n_walk, seed=404)
+            run.fail("hard-boundary-target-not-invariant",
+                     f"{kind}: exact draws from a half-Gaussian abutting the hard boundary u=0 drift after mutation (mean z={z:.1f}): "
+                     f"the kernel does not leave the target invariant at a hard boundary (redrawing out-of-cube proposals instead "
+                     f"of rejecting them tilts the invariant law by P(step lands inside))", kernel=kind, n_walkers=n_walk, seed=404)
 
 
 def main(tier, seed):
@@ -354,7 +379,7 @@ def main(tier, seed):
                 "source; (ii) the Metropolis test with injected uniforms (incl. 0.0 and nextafter(1,0)); (iii) ensemble "
                 "stationarity with fixed seeds: exact draws from an interior Gaussian / a wrapped target on a periodic "
                 "coordinate / a half-Gaussian on a reflective coordinate must stay distributed as the target after "
-                "mutation (|z| <= 6); the hard-boundary case is the listed finding.")
+                "mutation (|z| <= 6), including a half-Gaussian abutting a hard boundary (no boundary option).")
     run.assumptions = [
         "measure-theoretic lift: theorems are about densities (pointwise detailed balance); the two integral facts "
         "(t = scale mixture of normals; normalisation of the inverse-gamma conditional) are classical and not formalised",
@@ -367,7 +392,7 @@ def main(tier, seed):
     try:
         translate()
         run.obligation("translate:mcmc.py proposal/acceptance formulas", True)
-    except TranslateError as e:
+    except Exception as e:  # fail closed: anything the translator cannot digest
         run.obligation("translate:mcmc.py proposal/acceptance formulas", False, str(e))
     run.prove("Props/C03.v", link_rels=["Link/Shift.v", "Link/Kernel.v"], allowed_axioms=STDLIB_AXIOMS_REALS)
     run.prove("Props/C03P.v")
